@@ -15,6 +15,7 @@ COMMON_ASSUMPTIONS = [
 
 ENGINES = ['global_cache', 'thread_local_cache', 'async_cache']
 ENGINES_SCORES = ENGINES + ['scores']
+WRAPPERS = ['wrappers_global', 'wrappers_thread', 'wrappers_async']
 
 def _lock(kinds, prop):
     def run(tier):
@@ -34,10 +35,20 @@ PROPERTIES = {
                 trusted=['extract/locks.py: guard lifetimes follow Rust drop semantics (let-bound guards to end of block, temporaries to end of statement / scrutinee construct)']),
     'C06': dict(units=ENGINES, explanation='is_expired == (age >= ttl) and the get postconditions never_serves_expired / purges_expired / serves_unexpired, for all ttl and ages'),
     'C04': dict(units=ENGINES, explanation='wf / bound / exact-victim postconditions of insert and of the entry-limit eviction, all N, all six policies'),
-    'C01': dict(units=ENGINES, explanation='get returns a clone of the value stored under exactly this key; insert: last store wins, survivors unchanged'),
+    'C01': dict(units=ENGINES + WRAPPERS, explanation='get returns a clone of the value stored under exactly this key; insert: last store wins, survivors unchanged'),
     'C07': dict(units=ENGINES, explanation='queue postconditions: hit_recency, store moves key to back, FIFO/LRU victim is the queue front'),
     'C08': dict(units=ENGINES_SCORES, explanation='hit_counts postcondition and argmin postconditions of the scoring helpers'),
     'C05': dict(units=ENGINES, explanation='insert_with_memory: total <= max_memory after every store, oversize value not cached and displaces nothing, no eviction while the total fits, FIFO/LRU victims are the oldest; memory totals are a proved fold along the queue (no total axioms)',
                 assumptions=['hit counters never saturate (u64::MAX hits on one entry)', 'sum of the estimates fits usize (machine arithmetic)']),
+    'C02': dict(units=WRAPPERS + ['keys'], explanation='wrapper contracts: on every fixture expansion the cache is read and written under exactly key_str(d(p1) + "|" + d(p2) ...) with every parameter (and the receiver) present in order, d = Debug rendering (keys.rs blanket impl verified); lemmas: such keys are injective on argument tuples when each rendering is injective and "|"-safe',
+                assumptions=['std Debug of the built-in key types is injective and self-delimiting w.r.t. "|" (axioms ax_builtin_debug / ax_builtin_types); user CacheableKey impls and distinct NaN payloads are not covered'],
+                trusted=['R9 rewrites: expanded format!("{:?}", x) -> debug_fmt(&x); Vec<String>::join(sep) -> vec_join']),
+    'C03': dict(units=ENGINES + WRAPPERS, explanation='engine contracts (a lookup never removes an unexpired entry; an unbounded store keeps everything) and wrapper contracts on the real macro expansions: a hit is served without running the body, a miss runs it exactly once and stores the result (effect log)',
+                assumptions=['the concurrent sentence of the property (several simultaneous missers) is not covered: sequential histories only', 'fixture bodies are deterministic functions of their arguments']),
+    'C09': dict(units=ENGINES + WRAPPERS, explanation='insert_result* leave the cache untouched for Err and store Ok; wrapper contracts on the expansions of Result / std::result::Result fixtures (sync and async, with and without max_memory): Err is never stored, Ok is'),
+    'C10': dict(units=WRAPPERS, explanation='wrapper contracts on the expansions of cache_if fixtures: the predicate is consulted exactly once per body run with that key (effect log) and its verdict on (key, result) decides the store; sync Result: only Ok',
+                assumptions=['predicates are pure functions of (key, value)']),
+    'C11': dict(units=ENGINES + WRAPPERS, explanation='wrapper contracts on the expansions of invalidate_on fixtures: a stale hit is never returned, the body reruns and the fresh result replaces the entry (last store wins in all three engines); a valid hit is served without the body',
+                assumptions=['the check is a pure function of (key, value) during one call']),
     'C15': dict(units=ENGINES, explanation='exactly one counter is bumped by exactly one per lookup'),
 }
